@@ -16,14 +16,29 @@ CONSTANTS Cap,        \* 50000 in the code
           MaxD, MaxW, \* bounded model: due-time distances 0..MaxD (and Unbounded), work 0..MaxW
           Unbounded,
           Thresh,     \* pre-fix only: intervals below it were slept exactly (1000 in the code)
-          CapMode     \* "min": sleep min(interval, Cap)  (the code after the fix);  "prefix": the code before it
+          CapMode,    \* "min": sleep min(interval, Cap)  (the code after the fix);  "prefix": the code before it
+          OnSignal    \* "return": a sleep cut short by a signal is over (usleep: EINTR);  "resume": the remainder is slept as well
 VARIABLES now,        \* the clock when the iteration starts
-          t1, ret, slept, iters
-vars == <<now, t1, ret, slept, iters>>
+          t1, ret, slept, iters,
+          wokenAt     \* the time at which a signal handler posted a wake-up while the loop slept (-1: none in this iteration)
+vars == <<now, t1, ret, slept, iters, wokenAt>>
 
 SleepArg(i) == IF CapMode = "min" THEN (IF i < Cap THEN i ELSE Cap)
                ELSE (IF i < Thresh THEN i ELSE Cap)          \* pre-fix: every interval of 1 ms or more became a 50 ms nap
-Init == now = 0 /\ t1 = 0 /\ ret = 0 /\ slept = 0 /\ iters = 0
+Init == now = 0 /\ t1 = 0 /\ ret = 0 /\ slept = 0 /\ iters = 0 /\ wokenAt = -1
+(* On POSIX the interrupt context of fibre_run_atomic / fibre_eventq_send is a signal handler.  A signal that arrives k     *)
+(* ticks into the sleep runs the handler (which posts a wake-up the scheduler did not know of when it computed ret); the    *)
+(* sleeping primitive then reports the interruption, and the loop is back in fibre_scheduler_next at once.                  *)
+IterSignal(d, w, k) ==
+  LET r == now + d
+      after == now + w
+      arg == SleepArg(r - after) IN
+  /\ arg > 0 /\ k \in 0..(arg - 1)
+  /\ ret' = r /\ t1' = after
+  /\ wokenAt' = after + k
+  /\ slept' = IF OnSignal = "return" THEN k ELSE arg
+  /\ now' = after + slept'
+  /\ iters' = iters + 1
 Iter(d, w) ==
   LET r == now + d
       after == now + w
@@ -31,13 +46,15 @@ Iter(d, w) ==
   /\ ret' = r /\ t1' = after
   /\ slept' = IF arg > 0 THEN arg ELSE 0
   /\ now' = after + slept'
-  /\ iters' = iters + 1
-Next == \E d \in (0..MaxD) \cup {Unbounded}, w \in 0..MaxW : Iter(d, w)
+  /\ iters' = iters + 1 /\ wokenAt' = -1
+Next == \E d \in (0..MaxD) \cup {Unbounded}, w \in 0..MaxW : Iter(d, w) \/ \E k \in 0..Cap : IterSignal(d, w, k)
 Spec == Init /\ [][Next]_vars
 Bound == iters < 3
 
 (* the loop is back in fibre_scheduler_next no later than the returned time - or at once, if that time has already passed *)
 NoOversleep == now <= (IF ret > t1 THEN ret ELSE t1)
+(* a wake-up posted from a signal handler during the sleep is not slept on: the next pass starts when it was posted *)
+WakeNotSleptOn == wokenAt # -1 => now = wokenAt
 (* and it never naps for longer than the cap *)
 CapRespected == slept <= Cap
 =============================================================================
